@@ -58,7 +58,7 @@ static const int SEL[23] = { GD_RAW_ENTRY, GD_LINCOM_ENTRY, GD_LINTERP_ENTRY, GD
   GD_WINDOW_ENTRY, GD_MPLEX_ENTRY, GD_INDIR_ENTRY, GD_SINDIR_ENTRY, GD_CONST_ENTRY, GD_CARRAY_ENTRY,
   GD_STRING_ENTRY, GD_SARRAY_ENTRY, GD_VECTOR_ENTRIES, GD_SCALAR_ENTRIES, GD_ALIAS_ENTRIES, GD_ALL_ENTRIES };
 /* the list indices the model knows about */
-static const int MSEL[] = { 0, 1, 3, 4, 5, 6, 15, 16, 17, 19, 20, 21, 22 };
+static const int MSEL[] = { 0, 1, 2, 3, 4, 5, 6, 7, 8, 9, 10, 11, 12, 13, 14, 15, 16, 17, 18, 19, 20, 21, 22 };
 #define NMSEL ((int)(sizeof MSEL / sizeof MSEL[0]))
 
 static int live_entry(const gd_entry_t *p)
@@ -85,8 +85,10 @@ static int n_in(const gd_entry_t *E)
 {
   switch (E->field_type) {
     case GD_LINCOM_ENTRY: return E->EN(lincom,n_fields);
-    case GD_MULTIPLY_ENTRY: return 2;
-    case GD_BIT_ENTRY: case GD_PHASE_ENTRY: case GD_LINTERP_ENTRY: return 1;
+    case GD_MULTIPLY_ENTRY: case GD_DIVIDE_ENTRY: case GD_WINDOW_ENTRY: case GD_MPLEX_ENTRY:
+    case GD_INDIR_ENTRY: case GD_SINDIR_ENTRY: return 2;
+    case GD_BIT_ENTRY: case GD_PHASE_ENTRY: case GD_LINTERP_ENTRY: case GD_POLYNOM_ENTRY:
+    case GD_SBIT_ENTRY: case GD_RECIP_ENTRY: return 1;
     case GD_ALIAS_ENTRY: return 1;
     default: return 0;
   }
@@ -94,8 +96,9 @@ static int n_in(const gd_entry_t *E)
 static int n_sc(const gd_entry_t *E)
 {
   switch (E->field_type) {
-    case GD_LINCOM_ENTRY: return 6; case GD_BIT_ENTRY: return 2;
-    case GD_RAW_ENTRY: case GD_PHASE_ENTRY: return 1; default: return 0;
+    case GD_LINCOM_ENTRY: return 6; case GD_BIT_ENTRY: case GD_SBIT_ENTRY: case GD_MPLEX_ENTRY: return 2;
+    case GD_POLYNOM_ENTRY: return 3;
+    case GD_RAW_ENTRY: case GD_PHASE_ENTRY: case GD_RECIP_ENTRY: case GD_WINDOW_ENTRY: return 1; default: return 0;
   }
 }
 
@@ -155,7 +158,48 @@ static void dump(void)
       else for (k = 0; k < n; ++k) printf(" %lld", (long long)v[k]);
       printf("\n");
     }
+    {
+      /* strings, carrays, sarrays: the value lists must line up with the name lists */
+      unsigned n = gd_nentries(D, parent, GD_STRING_ENTRY, 0), k;
+      const char **sv = parent ? gd_mstrings(D, parent) : gd_strings(D);
+      const gd_carray_t *cv;
+      const char ***av;
+      printf("vs %s", show(parent));
+      if (sv == NULL) printf(" NULL(%d)", gd_error(D));
+      else { for (k = 0; sv[k]; ++k) printf(" %s", show(sv[k])); if (k != n) printf(" !count=%u", n); }
+      printf("\n");
+      n = gd_nentries(D, parent, GD_CARRAY_ENTRY, 0);
+      cv = parent ? gd_mcarrays(D, parent, GD_UINT8) : gd_carrays(D, GD_UINT8);
+      printf("vc %s", show(parent));
+      if (cv == NULL) printf(" NULL(%d)", gd_error(D));
+      else { for (k = 0; cv[k].n; ++k) printf(" %u:%u", (unsigned)cv[k].n, (unsigned)((const unsigned char *)cv[k].d)[0]); if (k != n) printf(" !count=%u", n); }
+      printf("\n");
+      n = gd_nentries(D, parent, GD_SARRAY_ENTRY, 0);
+      av = parent ? gd_msarrays(D, parent) : gd_sarrays(D);
+      printf("va %s", show(parent));
+      if (av == NULL) printf(" NULL(%d)", gd_error(D));
+      else { for (k = 0; av[k]; ++k) printf(" %s", show(av[k][0])); if (k != n) printf(" !count=%u", n); }
+      printf("\n");
+    }
   }
+}
+
+static void dump_match(void)
+{
+  /* gd_match_entries without a regex: the per-fragment view of the table */
+  static const int fr[3] = { 0, 1, GD_ALL_FRAGMENTS };
+  static const int sl[4] = { 22, 19, 20, 21 };
+  int a, b; unsigned f;
+  for (a = 0; a < 3; ++a)
+    for (b = 0; b < 4; ++b)
+      for (f = 0; f < 4; f += 3) {
+        const char **l = NULL;
+        unsigned n = gd_match_entries(D, NULL, fr[a], SEL[sl[b]], f, &l), k;
+        printf("x %d %d %u :", a, sl[b], f);
+        if (l == NULL) printf(" NULL(%d)", gd_error(D));
+        else { for (k = 0; l[k]; ++k) printf(" %s", show(l[k])); if (k != n) printf(" !count=%u", n); }
+        printf("\n");
+      }
 }
 
 static int split(char *s, char sep, char **out, int max)
@@ -206,7 +250,18 @@ int main(int argc, char **argv)
             case 0: E.field_type = GD_RAW_ENTRY; E.EN(raw,data_type) = GD_UINT8; E.EN(raw,spf) = 1; break;
             case 1: E.field_type = GD_LINCOM_ENTRY; E.EN(lincom,n_fields) = ni;
                     for (i = 0; i < 3; ++i) { E.EN(lincom,m)[i] = 1; E.EN(lincom,b)[i] = 0; } break;
+            case 2: E.field_type = GD_LINTERP_ENTRY; E.EN(linterp,table) = (char *)"tbl"; break;
             case 3: E.field_type = GD_BIT_ENTRY; E.EN(bit,bitnum) = 0; E.EN(bit,numbits) = 1; break;
+            case 7: E.field_type = GD_POLYNOM_ENTRY; E.EN(polynom,poly_ord) = 2;
+                    E.EN(polynom,a)[0] = 1; E.EN(polynom,a)[1] = 2; E.EN(polynom,a)[2] = 3; break;
+            case 8: E.field_type = GD_SBIT_ENTRY; E.EN(bit,bitnum) = 0; E.EN(bit,numbits) = 1; break;
+            case 9: E.field_type = GD_DIVIDE_ENTRY; break;
+            case 10: E.field_type = GD_RECIP_ENTRY; E.EN(recip,dividend) = 1; break;
+            case 11: E.field_type = GD_WINDOW_ENTRY; E.EN(window,windop) = GD_WINDOP_EQ; E.EN(window,threshold.i) = 1; break;
+            case 12: E.field_type = GD_MPLEX_ENTRY; E.EN(mplex,count_val) = 1; E.EN(mplex,period) = 2; break;
+            case 13: E.field_type = GD_INDIR_ENTRY; break;
+            case 14: E.field_type = GD_SINDIR_ENTRY; break;
+            case 18: E.field_type = GD_SARRAY_ENTRY; E.EN(scalar,array_len) = 1; break;
             case 4: E.field_type = GD_MULTIPLY_ENTRY; break;
             case 5: E.field_type = GD_PHASE_ENTRY; E.EN(phase,shift) = 0; break;
             case 15: E.field_type = GD_CONST_ENTRY; E.EN(scalar,const_type) = GD_INT64; break;
@@ -215,6 +270,25 @@ int main(int argc, char **argv)
             default: fprintf(stderr, "bad type %d\n", ty); return 2;
           }
           r = parent ? gd_madd(D, &E, parent) : gd_add(D, &E);
+          if (r == 0 && (ty == 16 || ty == 17 || ty == 18)) {
+            char full[4096];
+            const char *sl = parent ? NULL : strchr(name + (name[0] ? 1 : 0), '/');
+            if (parent) snprintf(full, sizeof full, "%s/%s", parent, name);
+            else if (sl) {
+              gd_entry_t *P = _GD_FindField(D, name, sl - name, D->entry, D->n_entries, 1, NULL);
+              if (P) snprintf(full, sizeof full, "%s%s", P->field, sl); else snprintf(full, sizeof full, "%s", name);
+            } else snprintf(full, sizeof full, "%s", name);
+            if (ty == 16) {
+              unsigned char c2[2]; c2[0] = (unsigned char)val; c2[1] = 7;
+              if (gd_put_carray(D, full, GD_UINT8, c2)) { printf("> putval-failed %d\n", gd_error(D)); dump(); dump_match(); continue; }
+            } else if (ty == 17) {
+              char sv[64]; snprintf(sv, sizeof sv, "s%lld", val);
+              if (gd_put_string(D, full, sv)) { printf("> putval-failed %d\n", gd_error(D)); dump(); dump_match(); continue; }
+            } else {
+              char sv[64]; const char *pp = sv; snprintf(sv, sizeof sv, "s%lld", val);
+              if (gd_put_sarray(D, full, &pp)) { printf("> putval-failed %d\n", gd_error(D)); dump(); dump_match(); continue; }
+            }
+          }
           if (r == 0 && ty == 15) {
             /* give the constant its value; find the new entry by pointer-free means */
             char full[4096];
@@ -226,7 +300,7 @@ int main(int argc, char **argv)
               gd_entry_t *P = _GD_FindField(D, name, sl - name, D->entry, D->n_entries, 1, NULL);
               if (P) snprintf(full, sizeof full, "%s%s", P->field, sl); else snprintf(full, sizeof full, "%s", name);
             } else snprintf(full, sizeof full, "%s", name);
-            if (gd_put_constant(D, full, GD_INT64, &v)) { printf("> putconst-failed %d\n", gd_error(D)); dump(); continue; }
+            if (gd_put_constant(D, full, GD_INT64, &v)) { printf("> putconst-failed %d\n", gd_error(D)); dump(); dump_match(); continue; }
           }
         }
         printf("> r %d\n", r);
@@ -269,6 +343,7 @@ int main(int argc, char **argv)
       printf("reference %s\n", show(r));
     }
     dump();
+    dump_match();
   }
   gd_discard(D);
   return 0;
